@@ -560,10 +560,16 @@ def run_shard(shard, tier, acc):
     b = bounds(tier)
     if kind == 'oc':
         _, layout, mq, bin_size, bpj, D, kt = shard
-        base = {'fn': 'obtain_counts', 'bam': ['core', D, mq, layout], 'bin_size': bin_size, 'bins_per_job': bpj,
-                'max_fragment_size': D, 'key_tags': kt, 'min_mq': mq, 'kwargs': dict(KWARGS), 'threads': 4,
-                'show_progress': bool(bpj % 2 == 0)}
-        _explore_orders(acc, base, tier, judge)
+        # thread counts: the number of workers must not decide which jobs are dispatched (with one bin per job - the largest
+        # number of jobs - also 1, 2 and 3 workers; the quantifier names thread counts)
+        for threads in ((4, 1, 2, 3) if bpj == 1 else (4,)):
+            base = {'fn': 'obtain_counts', 'bam': ['core', D, mq, layout], 'bin_size': bin_size, 'bins_per_job': bpj,
+                    'max_fragment_size': D, 'key_tags': kt, 'min_mq': mq, 'kwargs': dict(KWARGS), 'threads': threads,
+                    'show_progress': bool(bpj % 2 == 0)}
+            if threads == 4:
+                _explore_orders(acc, base, tier, judge)
+            else:
+                _explore_orders(acc, base, tier, judge, order_set=lambda n: [tuple(range(n - 1, -1, -1))])
     elif kind == 'defaults':
         _, layout, mq = shard
         for bin_size in b['bin_sizes']:
